@@ -132,6 +132,20 @@ func c19BaseScenarios() []C19Scenario {
 			{{K: "p1", V: "plain"}, {K: "p2", V: ""}, {K: "p3", V: "[1,2]"}, {K: "p4", V: "12"}, {K: "p5", V: `{"tag":"own"}`}, {K: "p6", V: "{broken"}}}, []C19Thread{
 			{[]string{"select key, json(value)['tag'], json(value)['n'] where true"}, 0, drv.Batch},
 			{[]string{"select key, json(value)['tag'], json(value)['n'] where json(value)['tag'] != 'zz'"}, 1, drv.Row}}, false, false},
+		// the same functions of the function table on both sides, each thread
+		// with arguments and data of its own (a function value is shared by
+		// every statement that calls it: what it keeps between two calls, or
+		// between the rows of a chunk, must not be visible)
+		{"list-functions-both-sides", [][]store.Pair{
+			{{K: "a1", V: "1"}, {K: "a2", V: "2"}, {K: "a3", V: "3"}},
+			{{K: "b1", V: "10"}, {K: "b2", V: "20"}, {K: "b3", V: "30"}, {K: "b4", V: "40"}}}, []C19Thread{
+			{[]string{"select flist(value, 2), ilist(value, 3), list(value, 'x'), split(key, '1'), join('-', key, value) where true"}, 0, drv.Batch},
+			{[]string{"select flist(value, 7), ilist(value, 8), list(value, 'y'), split(key, '2'), join('+', value, key) where true"}, 1, drv.Batch}}, false, false},
+		{"scalar-functions-both-sides", [][]store.Pair{
+			{{K: "a1", V: "1"}, {K: "a2", V: "2.5"}, {K: "a3", V: "x"}},
+			{{K: "B1", V: "10"}, {K: "B2", V: "20.5"}, {K: "B3", V: "Y"}, {K: "B4", V: "40"}}}, []C19Thread{
+			{[]string{"select upper(key), lower(value), strlen(value), substr(key, 0, 1), is_int(value), is_float(value), str(strlen(key)), int_list(1, 2)[0], float_list(0.5)[0], l2_distance(list(1, 2), list(strlen(value), 1)) where true"}, 0, drv.Batch},
+			{[]string{"select upper(value), lower(key), strlen(key), substr(key, 1, 2), is_int(key), is_float(key), str(strlen(value)), int_list(3, 4)[1], float_list(1.5)[0], cosine_distance(list(1, 2), list(strlen(value), 3)) where true"}, 1, drv.Batch}}, false, false},
 		{"three-access-paths", [][]store.Pair{d()}, []C19Thread{
 			{[]string{"select * where key in ('a1', 'y1', 'zz')"}, 0, drv.Row},
 			{[]string{"select * where key ^= 'a'"}, 0, drv.Batch},
